@@ -68,7 +68,8 @@ def cases(draw):
         # the same Data as the element of a repeated field: class options (search window) must reach it too
         d = {"k": "seq", "name": "d", "elem": dict(d, name="_"), "count": ["const", 2], "until": None, "when": None, "aligned": None}
     fields.append(d)
-    if mode != "eos":
+    last = mode != "eos" and chance(draw, 0.2)       # the byte string is the LAST field: nothing after it notices a short read
+    if mode != "eos" and not last:
         fields.append({"k": "int", "name": "q", "n": 1})
     fam = {"pkts": [{"name": "D", "opts": opts, "fields": fields}]}
     cg = draw(decl.cg_options())
